@@ -1,9 +1,9 @@
 package types
 
 import (
-	"fmt"
 	"io"
 
+	"github.com/lyraproj/issue/issue"
 	"github.com/lyraproj/pcore/utils"
 
 	"github.com/lyraproj/pcore/px"
@@ -153,7 +153,7 @@ func (t *TypeAliasType) Resolve(c px.Context) px.Type {
 
 func (t *TypeAliasType) ResolvedType() px.Type {
 	if t.resolvedType == nil {
-		panic(fmt.Sprintf("Reference to unresolved type '%s'", t.name))
+		panic(px.Error(px.UnresolvedType, issue.H{`typeString`: t.name}))
 	}
 	return t.resolvedType
 }
